@@ -1221,6 +1221,18 @@ class Workspace(AbstractContextManager):
 
         :param entity: The entity to be registered.
         """
+        if not isinstance(entity, EntityType):
+            # identifiers are unique across groups, objects, data and property groups
+            for registry in (
+                self._groups,
+                self._objects,
+                self._data,
+                self._property_groups,
+            ):
+                existing_ref = registry.get(entity.uid, None)
+                if existing_ref is not None and existing_ref() not in (None, entity):
+                    raise RuntimeError(f"Key '{entity.uid}' already used.")
+
         if isinstance(entity, EntityType):
             weakref_utils.insert_once(self._types, entity.uid, entity)
         elif isinstance(entity, Group):
